@@ -181,7 +181,11 @@ pub fn check(case: &Case, p: &mut Probe) -> Check {
     let hb = h.to_bits();
     let tail = hb.submatrix_cols(k, n);
     let invertible = tail.rank() == r;
-    let hs = h.to_sparse();
+    // one case in three reaches the constructor along another construction path of the matrix type
+    // (bulk insertion with a repeated index, set_row, parsing of the own alist text)
+    let path = if case.msg_seed % 3 == 2 { ((case.msg_seed / 3) % 6) as u8 } else { 0 };
+    let hs = h.to_sparse_by(path);
+    p.class_if(path != 0, "built-by-bulk-insertion-or-parsing");
     // history: in a third of the cases the constructor first sees, on the same thread, the zero
     // matrix of the same dimensions (singular tail: must be rejected, and must leave nothing behind)
     if case.msg_seed % 3 == 1 {
@@ -231,6 +235,17 @@ pub fn check(case: &Case, p: &mut Probe) -> Check {
     p.class_if(dbg.contains("DenseGenerator"), "path-dense");
     if k >= 1 && r >= 2 {
         p.nontrivial();
+    }
+    // history: a caller's mistake first - messages of a wrong length (one symbol short, three too many,
+    // all ones), whatever they yield (a panic is caught, as a worker thread's supervisor would); the
+    // well-formed calls that follow on the same thread must be unaffected
+    if case.msg_seed % 5 == 3 {
+        for len in [k.saturating_sub(1), k + 3] {
+            if len != k {
+                let _ = guarded(|| enc.encode(&to_gf2(&vec![1u8; len])));
+            }
+        }
+        p.class("after-a-call-with-a-message-of-wrong-length");
     }
     // messages: all 2^k when k <= 8, otherwise 64 pseudo-random ones derived from the case seed
     let nmsg = if k <= 8 { 1usize << k } else { 64 };
@@ -393,7 +408,7 @@ pub fn property() -> Property {
         id: "C02",
         subs: vec![Box::new(Sub {
             name: "encoder",
-            rule: "H with 1 <= r <= n <= 16 (thorough 48) built by class: exact staircase tail + random H0; near-staircase (one toggled tail cell anywhere incl. row 0, staircase shifted by one column); [A | P L U] with a random invertible tail; uniform dense; singular tail by construction (duplicated column, zero column, a row equal to the sum of two others); square (k = 0); single row; ones inserted in shuffled order. Oracle: own GF(2) rank of the last r columns decides Ok / Err(SubmatrixNotInvertible), never a panic; for Ok all 2^k messages (k <= 8) or 64 pseudo-random ones, handed over in six memory layouts in turn (owned, reversed view, stride 2, stride -2, offset sub-range, owned with negative stride): length n, first k symbols = message, own H c = 0, encode(0) = 0, linearity on consecutive pairs. Non-trivial = (k >= 1, r >= 2, invertible tail) or (singular tail, r >= 2); inner = encoded messages",
+            rule: "H with 1 <= r <= n <= 16 (thorough 48) built by class: exact staircase tail + random H0; near-staircase (one toggled tail cell anywhere incl. row 0, staircase shifted by one column); [A | P L U] with a random invertible tail; uniform dense; singular tail by construction (duplicated column, zero column, a row equal to the sum of two others); square (k = 0); single row; ones inserted in shuffled order. Oracle: own GF(2) rank of the last r columns decides Ok / Err(SubmatrixNotInvertible), never a panic; in a fifth of the cases encode is first called with messages of a wrong length (outcome ignored, a panic caught); for Ok all 2^k messages (k <= 8) or 64 pseudo-random ones, handed over in six memory layouts in turn (owned, reversed view, stride 2, stride -2, offset sub-range, owned with negative stride): length n, first k symbols = message, own H c = 0, encode(0) = 0, linearity on consecutive pairs. Non-trivial = (k >= 1, r >= 2, invertible tail) or (singular tail, r >= 2); inner = encoded messages",
             cases: |t| t.pick(300_000, 6_000_000),
             strategy: |t| strategy(t.pick(16, 48)),
             check,
